@@ -191,8 +191,12 @@ impl<'a, R: BufRead> LogCat2DltMsgIterator<'a, R> {
 fn parse_time_str(timestamp: &str) -> u64 {
     let dot_idx = timestamp.find('.').unwrap_or(timestamp.len());
 
-    let timestamp_secs_us: u64 =
-        timestamp[0..dot_idx].parse::<u64>().unwrap_or_default() * US_PER_SEC;
+    let timestamp_secs = timestamp[0..dot_idx].parse::<u64>().unwrap_or_default();
+    if timestamp_secs > u32::MAX as u64 {
+        // >136y cannot be a valid monotonic time and would overflow later on. Treat as parsing error.
+        return 0;
+    }
+    let timestamp_secs_us: u64 = timestamp_secs * US_PER_SEC;
 
     let timestamp_fraction_us = if dot_idx < timestamp.len() {
         let timestamp_fraction_str = &timestamp[dot_idx + 1..];
